@@ -246,6 +246,7 @@ func wgRun(t *testing.T, sp *wgSpec) {
 		rec.Note("nested-operator universe (twin and cousin operators of one kind): %d of %d models (twins: every %d., cousins: every %d.), %d ordered builds", n, total, twinStride, stride, orders)
 	}
 	rapid.Check(t, func(rt *rapid.T) {
+		noiseCall(rt) // one case in three is preceded by an unrelated, mostly failing call (see noise_test.go)
 		opts := sp.opts
 		if sp.altOpts != nil && rapid.IntRange(0, 2).Draw(rt, "profile") == 0 {
 			opts = *sp.altOpts
